@@ -55,75 +55,229 @@ func instLine(in *instD) string {
 	return b.String()
 }
 
-func kernelText(k *kernelD, st styleD, r *vlib.PRNG) string {
-	var b strings.Builder
-	fmt.Fprintf(&b, "-kernel name = %s\n", k.Name)
-	fmt.Fprintf(&b, "-kernel id = %d\n", k.KernelID)
-	fmt.Fprintf(&b, "-grid dim = (%d,%d,%d)\n", k.Grid[0], k.Grid[1], k.Grid[2])
-	fmt.Fprintf(&b, "-block dim = (%d,%d,%d)\n", k.Block[0], k.Block[1], k.Block[2])
-	fmt.Fprintf(&b, "-shmem = %d\n", k.Shmem)
-	fmt.Fprintf(&b, "-nregs = %d\n", k.Nregs)
-	fmt.Fprintf(&b, "-binary version = %d\n", k.BinVer)
-	fmt.Fprintf(&b, "-cuda stream id = %d\n", k.Stream)
-	fmt.Fprintf(&b, "-shmem base_addr = 0x%016x\n", k.ShmemBase)
-	fmt.Fprintf(&b, "-local mem base_addr = 0x%016x\n", k.LocalBase)
-	fmt.Fprintf(&b, "-nvbit version = %s\n", k.Nvbit)
-	fmt.Fprintf(&b, "-accelsim tracer version = %s\n", k.TracerVer)
-	fmt.Fprintf(&b, "-enable lineinfo = 0\n")
-	b.WriteString("\n#traces format = [line_num] PC mask dest_num [reg_dests] opcode src_num [reg_srcs] mem_width [adrrescompress?] [mem_addresses] immediate\n\n")
-	order := make([]int, len(k.Blocks))
-	for i := range order {
-		order[i] = i
-	}
-	if st.ShuffleBlocks && r != nil {
-		order = r.Perm(len(k.Blocks))
-	}
-	for _, bi := range order {
-		bd := &k.Blocks[bi]
-		b.WriteString("\n\n#BEGIN_TB\n\n")
-		fmt.Fprintf(&b, "thread block = %d,%d,%d\n\n", bd.ID[0], bd.ID[1], bd.ID[2])
-		for wi := range bd.Warps {
-			w := &bd.Warps[wi]
-			fmt.Fprintf(&b, "warp = %d\ninsts = %d\n", w.ID, len(w.Insts))
-			for ii := range w.Insts {
-				b.WriteString(instLine(&w.Insts[ii]))
-				b.WriteByte('\n')
-			}
-			for i := 0; i < st.BlankAfterWarp; i++ {
-				b.WriteByte('\n')
-			}
-		}
-		b.WriteString("#END_TB\n")
-	}
-	return b.String()
+// ln is one logical line of a kernel trace file.
+type ln struct {
+	kind byte // 'h' header, 'c' comment (#...), 't' thread block, 'w' warp, 'n' insts, 'i' instruction, 'b' blank
+	s    string
 }
 
-// writeTrace serialises c into dir and, when blocks are shuffled in the file,
-// reorders c's description to the order of the file (the order the reader
-// must return).
-func writeTrace(c *caseD, dir string) error {
-	var list strings.Builder
+// kernelLines is the layout of the shipped sample trace (the canonical form).
+func kernelLines(k *kernelD, st styleD) []ln {
+	var out []ln
+	add := func(kind byte, f string, a ...any) { out = append(out, ln{kind, fmt.Sprintf(f, a...)}) }
+	blank := func(n int) {
+		for i := 0; i < n; i++ {
+			out = append(out, ln{'b', ""})
+		}
+	}
+	add('h', "-kernel name = %s", k.nameWritten())
+	add('h', "-kernel id = %d", k.KernelID)
+	add('h', "-grid dim = (%d,%d,%d)", k.Grid[0], k.Grid[1], k.Grid[2])
+	add('h', "-block dim = (%d,%d,%d)", k.Block[0], k.Block[1], k.Block[2])
+	add('h', "-shmem = %d", k.Shmem)
+	add('h', "-nregs = %d", k.Nregs)
+	add('h', "-binary version = %d", k.BinVer)
+	add('h', "-cuda stream id = %d", k.Stream)
+	add('h', "-shmem base_addr = 0x%016x", k.ShmemBase)
+	add('h', "-local mem base_addr = 0x%016x", k.LocalBase)
+	add('h', "-nvbit version = %s", k.Nvbit)
+	add('h', "-accelsim tracer version = %s", k.TracerVer)
+	add('h', "-enable lineinfo = 0")
+	blank(1)
+	add('c', "#traces format = [line_num] PC mask dest_num [reg_dests] opcode src_num [reg_srcs] mem_width [adrrescompress?] [mem_addresses] immediate")
+	blank(1)
+	for bi := range k.Blocks {
+		bd := &k.Blocks[bi]
+		blank(2)
+		add('c', "#BEGIN_TB")
+		blank(1)
+		add('t', "thread block = %d,%d,%d", bd.ID[0], bd.ID[1], bd.ID[2])
+		blank(1)
+		for wi := range bd.Warps {
+			w := &bd.Warps[wi]
+			add('w', "warp = %d", w.ID)
+			add('n', "insts = %d", len(w.Insts))
+			for ii := range w.Insts {
+				out = append(out, ln{'i', instLine(&w.Insts[ii])})
+			}
+			blank(st.BlankAfterWarp)
+		}
+		add('c', "#END_TB")
+	}
+	return out
+}
+
+// kernelText serialises k in the byte-level form st.Form (form.go). Every form
+// is one the shipped reader accepts by construction of its own code:
+// bufio.ScanLines (LF or CRLF, last line with or without terminator, lines
+// below 64 KiB), empty lines skipped everywhere, '#' lines only where the
+// reader is looking for the next "thread block" line, strings.TrimSpace on
+// header values, Sscanf on "thread block" / "warp" / "insts" lines (trailing
+// text ignored), strings.Fields on instruction lines.
+func kernelText(k *kernelD, st styleD) string {
+	f := st.Form
+	pr := vlib.NewPRNG(uint64(k.KernelID)*7919 + uint64(len(k.Blocks))*31 + 12345)
+	lines := kernelLines(k, st)
+	var tmp []ln
+	switch f.Comments {
+	case "none":
+		for _, l := range lines {
+			if l.kind != 'c' {
+				tmp = append(tmp, l)
+			}
+		}
+		lines = tmp
+	case "extra":
+		for _, l := range lines {
+			tmp = append(tmp, l)
+			if l.kind == 'c' && l.s != "#BEGIN_TB" { // after the format line and after every #END_TB
+				tmp = append(tmp, ln{'c', "#post-processed by accel-sim trace tools"}, ln{'c', "# " + fmt.Sprint(pr.Intn(1000))})
+			}
+		}
+		lines = append(tmp, ln{'c', "#END_OF_TRACE"})
+	}
+	tmp = nil
+	switch f.Blank {
+	case "none":
+		for _, l := range lines {
+			if l.kind != 'b' {
+				tmp = append(tmp, l)
+			}
+		}
+		lines = tmp
+	case "many":
+		for i, n := 0, 1+pr.Intn(3); i < n; i++ {
+			tmp = append(tmp, ln{'b', ""})
+		}
+		for _, l := range lines {
+			tmp = append(tmp, l)
+			for i, n := 0, pr.Intn(3); i < n; i++ {
+				tmp = append(tmp, ln{'b', ""})
+			}
+		}
+		lines = append(tmp, ln{'b', ""}, ln{'b', ""})
+	}
+	eol := "\n"
+	if f.CRLF {
+		eol = "\r\n"
+	}
+	var b strings.Builder
+	for _, l := range lines {
+		s := l.s
+		if l.kind == 'i' && f.InstLead {
+			fs := strings.Fields(s)
+			s = []string{" ", "\t", "   "}[pr.Intn(3)]
+			for i, x := range fs {
+				if i > 0 {
+					s += []string{" ", " ", "  ", "\t"}[pr.Intn(4)]
+				}
+				s += x
+			}
+			s += " "
+		}
+		if l.kind != 'b' && f.Trailing {
+			s += []string{" ", "\t", " \t "}[pr.Intn(3)]
+		}
+		b.WriteString(s)
+		b.WriteString(eol)
+	}
+	out := b.String()
+	if f.NoFinalNL {
+		out = strings.TrimRight(out, "\r\n")
+	}
+	return out
+}
+
+// listText serialises kernelslist.g. The reader takes the lines of
+// bufio.ScanLines, skips empty ones, recognises an entry by its prefix (so no
+// leading blanks), takes a kernel line verbatim as the file name (so no
+// trailing blanks there) and reads a memcpy line with Sscanf (trailing blanks
+// are ignored).
+func listText(c *caseD) string {
+	f := c.Style.Form
+	pr := vlib.NewPRNG(uint64(len(c.Execs))*131 + 977)
+	eol := "\n"
+	if f.ListCRLF {
+		eol = "\r\n"
+	}
+	var b strings.Builder
+	blanks := func(max int) {
+		if f.ListBlank {
+			for i, n := 0, pr.Intn(max+1); i < n; i++ {
+				b.WriteString(eol)
+			}
+		}
+	}
+	if f.ListBlank {
+		b.WriteString(eol)
+	}
 	for i := range c.Execs {
 		e := &c.Execs[i]
 		if e.Kernel == nil {
-			fmt.Fprintf(&list, "%s,0x%016x,%d\n", e.Dir, e.Addr, e.Len)
+			fmt.Fprintf(&b, "%s,0x%016x,%d", e.Dir, e.Addr, e.Len)
+			if f.ListMemcpyWS {
+				b.WriteString([]string{" ", "\t", " \t "}[pr.Intn(3)])
+			}
+		} else {
+			b.WriteString(e.Kernel.fileWritten())
+		}
+		b.WriteString(eol)
+		if i < len(c.Execs)-1 {
+			blanks(2)
+		}
+	}
+	if f.ListBlank && !f.ListNoFinalNL {
+		b.WriteString(eol)
+		b.WriteString(eol)
+	}
+	out := b.String()
+	if f.ListNoFinalNL {
+		out = strings.TrimRight(out, "\r\n")
+	}
+	return out
+}
+
+// writeTrace serialises c into dir in the form c.Style.Form and, when blocks
+// are shuffled in the file, reorders c's description (once) to the order of the
+// file (the order the reader must return). It records in every kernel the file
+// name and kernel name actually written.
+func writeTrace(c *caseD, dir string) error {
+	f := c.Style.Form
+	nK := 0
+	for i := range c.Execs {
+		if c.Execs[i].Kernel != nil {
+			nK++
+		}
+	}
+	j := 0
+	for i := range c.Execs {
+		k := c.Execs[i].Kernel
+		if k == nil {
 			continue
 		}
-		k := e.Kernel
-		if c.Style.ShuffleBlocks {
+		j++
+		k.wFile, k.wName = k.File, k.Name
+		switch f.Names {
+		case "multi-digit":
+			k.wFile = fmt.Sprintf("kernel-%d.traceg", 9+97*j)
+		case "descending":
+			k.wFile = fmt.Sprintf("kernel-%d.traceg", nK-j+1)
+		}
+		if f.LongName {
+			k.wName = k.Name + "_" + strings.Repeat("Z", 50000) // one line of ~50 KB, below bufio.Scanner's 64 KiB
+		}
+		if c.Style.ShuffleBlocks && !k.shuffled {
 			p := vlib.NewPRNG(uint64(len(k.Blocks))*977 + uint64(k.KernelID)).Perm(len(k.Blocks))
 			nb := make([]blockD, len(k.Blocks))
 			for j, src := range p {
 				nb[j] = k.Blocks[src]
 			}
 			k.Blocks = nb
+			k.shuffled = true
 		}
-		st := c.Style
-		st.ShuffleBlocks = false
-		if err := os.WriteFile(filepath.Join(dir, k.File), []byte(kernelText(k, st, nil)), 0o644); err != nil {
+		if err := os.WriteFile(filepath.Join(dir, k.wFile), []byte(kernelText(k, c.Style)), 0o644); err != nil {
 			return err
 		}
-		list.WriteString(k.File + "\n")
 	}
-	return os.WriteFile(filepath.Join(dir, "kernelslist.g"), []byte(list.String()), 0o644)
+	return os.WriteFile(filepath.Join(dir, "kernelslist.g"), []byte(listText(c)), 0o644)
 }
